@@ -26,5 +26,8 @@ for d in sorted(glob.glob(root + '/seeded/*')):
                failed_obligations=failed, generation_errors=[g[:300] for g in gen], violation_lines=viol)
     json.dump(det, open(d + '/detected.json', 'w'), indent=1)
     rows.append((sid, 'DETECTED' if det['detected'] else 'MISSED', failed or [g[:80] for g in gen]))
+# the evidence files were overwritten by the seeded runs: write them again from the unchanged tree
+for prop in sorted(set(sid.split('-')[0] for sid, _, _ in rows)):
+    subprocess.run([root + '/check.sh', prop, 'quick'], capture_output=True, text=True, cwd=root)
 for sid, res, obl in rows:
     print('%-8s %-9s %s' % (sid, res, '; '.join(o.split('/')[-1] for o in obl)[:200]))
